@@ -5,6 +5,7 @@
   Z/AD/CD and its question section are those the header copy and `add_question` wrote.
 -/
 import QV.Proofs.FrameServer
+import QV.Proofs.FinishInv
 import QV.Proofs.QuestionOctets
 
 namespace QV.ServerScan
@@ -28,7 +29,7 @@ theorem echo_of_frame (bufLen : Nat) (tr : Server.Transport) (payload id opcode 
     (hbuf : minBuf tr payload ≤ bufLen) (hpay : 512 ≤ payload) (msg : Bytes) (q : Option Spec.DQuestion)
     (hq : ∀ x, q = some x → ∃ nx, Spec.specQuestionAt msg 12 = some (x.qname, x.qtype, x.qclass, nx))
     (w1 : State)
-    (hfr : Fr (12 + (qOctets q).length) (qSt (hdrSt (w0 bufLen (lim0 tr)) id opcode rd) q) w1) :
+    (hfr : Fr false (12 + (qOctets q).length) (qSt (hdrSt (w0 bufLen (lim0 tr)) id opcode rd) q) w1) :
     EchoSt bufLen id opcode rd q w1 := by
   obtain ⟨hbase, hcur, o0, o1, o2, h30, hs3, hQ, hqd, han, hns, har, hrrs, hsz⟩ :=
     s1_facts bufLen tr payload id opcode rd hbuf hpay msg q hq
@@ -98,7 +99,7 @@ theorem hwc_echo (cfg : Server.Cfg) (tr : Server.Transport) (now bufLen : Nat) (
         -- FORMERR on the header-only writer
         have hcs : (hdrSt (w0 bufLen (lim0 tr)) id opcode rd).cursor = 12 := hH.cursor
         have hrs : (hdrSt (w0 bufLen (lim0 tr)) id opcode rd).rrStart = 12 := hH.rrStart
-        have := framed_bind (framed_setRcode 12 (by omega) 1 (by omega)) (fun _ => framed_pure 12 true)
+        have := framed_bind (k := false) (framed_setRcode 12 (by omega) 1 (by omega)) (fun _ => framed_pure 12 true)
           (hdrSt (w0 bufLen (lim0 tr)) id opcode rd) (by rw [hcs]; exact Nat.le_refl _) (by rw [hrs]; exact Nat.le_refl _)
         have h' : (setRcode 1 >>= fun _ => pure true : M Bool) (hdrSt (w0 bufLen (lim0 tr)) id opcode rd) =
             (.ok true, w1) := h
@@ -239,6 +240,175 @@ theorem response_echo (cfg : Server.Cfg) (tr : Server.Transport) (now bufLen : N
           by_cases hj : j < (qOctets q).length
           · rw [if_pos hj, List.getElem?_drop, Array.getElem?_toList, f2 (12 + j) (by omega) (by omega), hE.body j hj]
           · rw [if_neg hj, List.getElem?_eq_none (by omega)]
+      · rw [hf] at h; cases h
+      · rw [hf] at h; cases h
+  · rw [hh] at h; cases h
+  · rw [hh] at h; cases h
+
+
+/-! ### the EDNS and TSIG slots when a loaded zone answers -/
+
+theorem specTail_none_not_answer (lookup : List UInt8 → Nat → Option Spec.Server.ZoneKind) (S : Nat) (msg : Bytes)
+    (p1 an ns ar op : Nat) : (specTail lookup S msg none p1 an ns ar op).verdict ≠ .answer := by
+  unfold specTail
+  repeat' split
+  all_goals first | (simp; done) | simp_all
+
+/-- **when a loaded zone answers** (verdict `answer`): whatever the zone holds and whatever the
+    answering phase does (records, CNAME chains, referrals, negative answers, SERVFAIL and truncation
+    epilogues), the writer that `finish` receives has an empty TSIG slot, and its EDNS slot is set —
+    with the server's payload size — exactly when the scan reached an OPT record -/
+theorem hwc_answer_slot (cfg : Server.Cfg) (tr : Server.Transport) (now bufLen : Nat) (req : Bytes)
+    (hbuf : minBuf tr cfg.payload ≤ bufLen) (hpay : 512 ≤ cfg.payload) (h12 : 12 ≤ req.size)
+    (hreq : req.size ≤ Rdata.USIZE_MAX) (id opcode : Nat) (rd : Bool)
+    (hv : (specBody (catKind cfg) cfg.payload req).verdict = .answer) :
+    ((Server.handleWithContext cfg tr now ⟨req, 12, none⟩ (hdrSt (w0 bufLen (lim0 tr)) id opcode rd)).2).tsig = none ∧
+    ((Server.handleWithContext cfg tr now ⟨req, 12, none⟩ (hdrSt (w0 bufLen (lim0 tr)) id opcode rd)).2).edns.map
+        (·.payload) = (if (specBody (catKind cfg) cfg.payload req).edns then some cfg.payload else none) := by
+  obtain ⟨hqd, han, hns, har, _, hop, _, _⟩ := reader_header req h12
+  have hH := hdrSt_ok bufLen tr cfg.payload id opcode rd hbuf hpay
+  rw [Server.handleWithContext_split]
+  unfold Server.handleWithContext'
+  simp only [hqd, han, hns, har, hop, opcode_bits]
+  by_cases hq0 : Spec.Server.hdr req 4 = 0
+  · exfalso
+    have : specBody (catKind cfg) cfg.payload req = specTail (catKind cfg) cfg.payload req none 12
+        (Spec.Server.hdr req 6) (Spec.Server.hdr req 8) (Spec.Server.hdr req 10) ((req.getD 2 0).toNat / 8 % 16) := by
+      unfold specBody
+      simp only [hq0, show ¬ (0 > 1) by omega, if_false, if_true]
+    rw [this] at hv
+    exact specTail_none_not_answer _ _ _ _ _ _ _ _ hv
+  · by_cases hq1 : Spec.Server.hdr req 4 = 1
+    · simp only [hq1, show ¬ ((1 : Nat) = 0) by omega, if_false, if_true]
+      have hrq := readQuestion_spec (⟨req, 12, none⟩ : Reader)
+      cases hsq : Spec.specQuestionAt req 12 with
+      | none =>
+        exfalso
+        have : specBody (catKind cfg) cfg.payload req = { respond := true, verdict := .formErr } := by
+          unfold specBody
+          simp only [hq1, show ¬ ((1 : Nat) > 1) by omega, if_false, show ¬ ((1 : Nat) = 0) by omega, hsq]
+        rw [this] at hv; cases hv
+      | some v =>
+        obtain ⟨w, t, c, nx⟩ := v
+        rw [show (⟨req, 12, none⟩ : Reader).octets = req from rfl,
+          show (⟨req, 12, none⟩ : Reader).cursor = 12 from rfl, hsq] at hrq
+        simp only at hrq
+        obtain ⟨p, hp, hpw, hnx, hnxs, hwl⟩ := specQuestionAt_some req 12 w t c nx hsq
+        obtain ⟨qn, hqn, hqw⟩ := wname_of_parse req 12 p hp
+        rw [hpw] at hqn hqw
+        have hsc : specBody (catKind cfg) cfg.payload req = specTail (catKind cfg) cfg.payload req (some ⟨w, t, c⟩) nx
+            (Spec.Server.hdr req 6) (Spec.Server.hdr req 8) (Spec.Server.hdr req 10) ((req.getD 2 0).toNat / 8 % 16) := by
+          unfold specBody
+          simp only [hq1, show ¬ ((1 : Nat) > 1) by omega, if_false, show ¬ ((1 : Nat) = 0) by omega, hsq]
+        rw [hsc] at hv ⊢
+        obtain ⟨hadd, hbase, _, hcur, _, _, _, _, hrrs⟩ := qSt_some _ tr cfg.payload hH ⟨w, t, c⟩ qn hqn hqw hwl
+        simp only [hrq, hqn]
+        have hQ : Server.addQuestionOrServfail (some (qn, t, c)) (hdrSt (w0 bufLen (lim0 tr)) id opcode rd) =
+            (.ok true, qSt (hdrSt (w0 bufLen (lim0 tr)) id opcode rd) (some ⟨w, t, c⟩)) := by
+          show (match addQuestion qn t c _ with
+            | (.ok (), s') => ((.ok true : Out WriterErr Bool), s')
+            | (.err _, s') => (do setRcode (Server.RC "SERVFAIL"); pure false : M Bool) s'
+            | (.panic, s') => (.panic, s')) = _
+          rw [hadd]
+        rw [bind_ok hQ]
+        simp only [Bool.not_true, Bool.false_eq_true, if_false]
+        rw [scanAndDispatch_answer cfg tr now req (some ⟨w, t, c⟩) (some (qn, t, c))
+          ⟨req, nx, none⟩ ⟨h12, hnxs⟩ rfl _ hbase hreq tsigFacts _ _ _ _ hv]
+        -- the answering phase keeps the TSIG slot and the EDNS payload size
+        generalize hs1 : qSt (hdrSt (w0 bufLen (lim0 tr)) id opcode rd) (some ⟨w, t, c⟩) = s1 at *
+        generalize hsce : (specTail (catKind cfg) cfg.payload req (some ⟨w, t, c⟩) nx (Spec.Server.hdr req 6)
+          (Spec.Server.hdr req 8) (Spec.Server.hdr req 10) ((req.getD 2 0).toNat / 8 % 16)).edns = e
+        generalize hscl : (specTail (catKind cfg) cfg.payload req (some ⟨w, t, c⟩) nx (Spec.Server.hdr req 6)
+          (Spec.Server.hdr req 8) (Spec.Server.hdr req 10) ((req.getD 2 0).toNat / 8 % 16)).limitUdp = l
+        obtain ⟨f1, f2, f3, _, _, _, _, f8⟩ := arSt_fields s1 tr cfg.payload e l
+        have hfr := framed_bind (k := true) (Server.framed_handleQuery (12 + w.length + 4) (by omega) cfg
+          (some (qn, t, c)) tr) (fun _ => framed_pure (12 + w.length + 4) true) (arSt s1 tr cfg.payload e l)
+          (by rw [f2, hcur]; exact Nat.le_refl _)
+          (by
+            have : (arSt s1 tr cfg.payload e l).rrStart = s1.rrStart := by cases e <;> cases tr <;> rfl
+            rw [this, hrrs]; exact Nat.le_refl _)
+        obtain ⟨k1, k2⟩ := hfr.keep rfl
+        refine ⟨by rw [k1, f3]; exact hbase.tsig, ?_⟩
+        rw [k2, f8, hbase.edns]
+        cases e <;> rfl
+    · exfalso
+      have hgt : Spec.Server.hdr req 4 > 1 := by omega
+      have : specBody (catKind cfg) cfg.payload req = { respond := false } := by
+        unfold specBody
+        simp only [hgt, if_true]
+      rw [this] at hv; cases hv
+
+
+/-- the writer at the moment `handle_message_with_context` returns, i.e. what `finish` receives -/
+def answerState (cfg : Server.Cfg) (tr : Server.Transport) (now bufLen : Nat) (req : Bytes) : State :=
+  (Server.handleWithContext cfg tr now ⟨req, 12, none⟩
+    (hdrSt (w0 bufLen (lim0 tr)) (Spec.Server.hdr req 0) (((req.getD 2 0).toNat &&& 120) >>> 3)
+      (((req.getD 2 0).toNat &&& 1) != 0))).2
+
+/-- **the end of a response that a loaded zone produces** (verdict `answer`): with `w1` the writer
+    the answering phase leaves, the response is `w1`'s content up to its cursor (counts filled in)
+    and then — exactly when the scan reached an OPT — the eleven octets of one OPT record: owner root,
+    TYPE 41, CLASS = the server's payload size, version 0, flags 0, RDLENGTH 0.  Nothing else is
+    appended (no TSIG record). -/
+theorem answer_finish (cfg : Server.Cfg) (tr : Server.Transport) (now bufLen : Nat) (req : Bytes)
+    (hbuf : minBuf tr cfg.payload ≤ bufLen) (hpay : 512 ≤ cfg.payload) (hreq : req.size ≤ Rdata.USIZE_MAX)
+    (hv : (Spec.Server.specScanWith (catKind cfg) cfg.payload req).verdict = .answer)
+    (b : Bytes) (h : Server.handleMessage cfg tr now bufLen req = .ok (some b)) :
+    if (Spec.Server.specScanWith (catKind cfg) cfg.payload req).edns then
+      b.size = (answerState cfg tr now bufLen req).cursor + 11 ∧
+      (∀ i, i < (answerState cfg tr now bufLen req).cursor →
+        b[i]? = (withCounts (answerState cfg tr now bufLen req))[i]?) ∧
+      ∃ x : UInt8, b.toList.drop (answerState cfg tr now bufLen req).cursor =
+        [0] ++ u16be 41 ++ u16be cfg.payload ++ [x, 0, 0, 0] ++ u16be 0
+    else
+      b = (withCounts (answerState cfg tr now bufLen req)).extract 0 (answerState cfg tr now bufLen req).cursor := by
+  have h12 : 12 ≤ req.size := by
+    by_cases hc : req.size < 12
+    · rw [handleMessage_short cfg tr now bufLen req hbuf hc] at h; cases h
+    · omega
+  have hqr : (req.getD 2 0).toNat < 128 := by
+    by_cases hc : (req.getD 2 0).toNat ≥ 128
+    · rw [handleMessage_qr cfg tr now bufLen req hbuf h12 hc] at h; cases h
+    · omega
+  rw [specScanWith_eq] at hv ⊢
+  simp only [show ¬ req.size < 12 by omega, show ¬ (req.getD 2 0).toNat ≥ 128 by omega, if_false] at hv ⊢
+  obtain ⟨ht, he⟩ := hwc_answer_slot cfg tr now bufLen req hbuf hpay h12 hreq (Spec.Server.hdr req 0)
+    (((req.getD 2 0).toNat &&& 120) >>> 3) (((req.getD 2 0).toNat &&& 1) != 0) hv
+  rw [handleMessage_eq cfg tr now bufLen req hbuf hpay h12 hqr] at h
+  unfold answerState
+  rcases hh : Server.handleWithContext cfg tr now ⟨req, 12, none⟩
+      (hdrSt (w0 bufLen (lim0 tr)) (Spec.Server.hdr req 0) (((req.getD 2 0).toNat &&& 120) >>> 3)
+        (((req.getD 2 0).toNat &&& 1) != 0)) with ⟨(bb | e | _), w1⟩
+  · rw [hh] at h ht he
+    simp only at ht he ⊢
+    cases bb with
+    | false => simp only at h; cases h
+    | true =>
+      simp only at h
+      have hE := hwc_echo cfg tr now bufLen req hbuf hpay h12 _ _ _ w1 hh
+      rcases hf : Writer.finish w1 Server.macFn with ⟨bytes, mac⟩ | e | _
+      · rw [hf] at h
+        simp only [Out.ok.injEq, Option.some.injEq] at h
+        subst h
+        have hsz : 12 ≤ w1.octets.size := by
+          have := hE.fits; rw [hE.size]; omega
+        obtain ⟨_, ft⟩ := finish_inv_tail w1 Server.macFn ht hsz bytes mac hf
+        cases hed : (specBody (catKind cfg) cfg.payload req).edns with
+        | false =>
+          rw [hed] at he
+          simp only [Bool.false_eq_true, if_false, Option.map_eq_none_iff] at he ⊢
+          rw [he] at ft
+          exact ft
+        | true =>
+          rw [hed] at he
+          simp only [if_true] at he ⊢
+          rcases hw : w1.edns with _ | ed
+          · rw [hw] at he; cases he
+          · rw [hw] at he ft
+            simp only [Option.map_some, Option.some.injEq] at he
+            simp only at ft
+            refine ⟨ft.1, ft.2.2, UInt8.ofNat ed.upper, ?_⟩
+            rw [ft.2.1, optRecord_shape, he]
       · rw [hf] at h; cases h
       · rw [hf] at h; cases h
   · rw [hh] at h; cases h
